@@ -71,9 +71,13 @@ static vj_t *vj_new(json_type type)
 	return n;
 }
 
+/* a fresh string of arbitrary content.  Its capacity is the ghost constant
+ * g_vj_len_c (arbitrary, fixed per run); since the content is arbitrary --
+ * interior NULs included -- the C-string length is any value up to it, so no
+ * generality is lost, and contracts can name the object size. */
 static char *vj_nondet_string(void)
 {
-	size_t len = nondet_size_t();
+	size_t len = g_vj_len_c;
 	__CPROVER_assume(len < VJ_MAX_STR);
 	char *s = malloc(len + 1);
 	__CPROVER_assume(s != NULL);
